@@ -227,8 +227,9 @@ def doLine (d : D) (ws : List String) : D × String :=
   | ["kick", sid] =>
       (match sid.toNat? with
       | some n =>
-          -- a subscriber that is gone (or never existed) is identified by a pointer nobody is registered with
-          let target := match d.live n with | some _ => n | none => 1000000
+          -- a live subscriber, or the stale identity of one that has left (the harness keeps the old object's address);
+          -- a sid that was never used stands for a pointer nobody ever registered with
+          let target := match d.find n with | some _ => n | none => 1000000
           globalOp d (Op.kick target) (fun _ => s!"kick {sid}")
       | none => (d, "bad"))
   | ["kickme", sid] =>
